@@ -14,6 +14,7 @@ import (
 	"fmt"
 	"io"
 	"os"
+	"time"
 
 	"k8s.io/klog/v2"
 )
@@ -86,9 +87,10 @@ type Case struct {
 }
 
 type Writer struct {
-	f *os.File
-	w *bufio.Writer
-	n int
+	f    *os.File
+	w    *bufio.Writer
+	n    int
+	last time.Time // last flush: the caller watches the file grow to tell a slow run from a hang
 }
 
 func NewWriter(path string) *Writer {
@@ -109,6 +111,10 @@ func (w *Writer) Put(c Case) {
 	w.w.Write(b)
 	w.w.WriteByte('\n')
 	w.n++
+	if time.Since(w.last) > 5*time.Second {
+		w.w.Flush()
+		w.last = time.Now()
+	}
 }
 
 func (w *Writer) Close() { w.w.Flush(); w.f.Close() }
